@@ -141,6 +141,40 @@ def convSpecs : List (String × SpecFn) := [
       | _ => some (expectVal (decDec (r.getD 0 "")) x))
 ]
 
+/-- `Decimal.Float` driven through the hook dispatcher: `<d> <f> = <result>` with `*big.Float` tokens
+    (`nil` or `prec:mode:value`, Go/BigFloat.lean).  Rewritten into the line format of `api.Float`
+    (`<d> <prec or -1 for nil> <mode> = ±num/den|±Inf <prec>`) and judged by that check; on top of it
+    the result keeps the rounding mode of a non-nil `f` (a new Float has ToNearestEven). -/
+def floatKernelSpec (apiSpec : SpecFn) : SpecFn := fun g a r => do
+  let recv : Option BigFloat ← Codec.dec (a.getD 1 "")
+  let (precArg, mode) : Int × Nat := match recv with
+    | none => (-1, 0)
+    | some f => (f.prec, f.mode.toNat)
+  let args := #[a.getD 0 "", toString precArg, toString mode]
+  if (r.getD 0 "").startsWith "PANIC" then apiSpec g args r else
+  match (Codec.dec (r.getD 0 "") : Option BigFloat) with
+  | none => some (some "unparsable big.Float result")
+  | some res =>
+    let sgn := if res.neg then "-" else "+"
+    let tok := match res.form with
+      | .inf => sgn ++ "Inf"
+      | .zero => sgn ++ "0/1"
+      | .finite => sgn ++ toString res.val.num.natAbs ++ "/" ++ toString res.val.den
+    if res.mode.toNat != mode then some (some s!"rounding mode {res.mode} of the result, expected {mode}") else
+    apiSpec g args #[tok, toString res.prec]
+
+/-- `FromFloat` driven through the hook dispatcher: `<f> = <decimal>`; rewritten into the line format
+    of `api.FromFloat` (`<mantissa> <exp2> <neg>` or `±Inf`) and judged by that check. -/
+def fromFloatKernelSpec (apiSpec : SpecFn) : SpecFn := fun g a r => do
+  let f : BigFloat ← Codec.dec (a.getD 0 "")
+  match f.form with
+  | .inf => apiSpec g #[if f.neg then "-Inf" else "+Inf", "0", "F"] r
+  | .zero => apiSpec g #["0", "0", boolTok f.neg] r
+  | .finite =>
+    -- val = num/den with den a power of two
+    let e2 : Int := -(f.val.den.log2 : Int)
+    apiSpec g #[toString f.val.num.natAbs, toString e2, boolTok f.neg] r
+
 /-- the generated conversions are also driven directly through the hook dispatcher (kernel mode):
     same line format as the `api.*` forms, same judgement -/
 def convAliases : List (String × String) :=
@@ -149,6 +183,9 @@ def convAliases : List (String × String) :=
 
 def convSpecTable : SpecTable :=
   let t := convSpecs.foldl (fun m (k, v) => m.insert k v) allSpecTable
-  convAliases.foldl (fun m (k, k') => match t.get? k' with | some v => m.insert k v | none => m) t
+  let t := convAliases.foldl (fun m (k, k') => match t.get? k' with | some v => m.insert k v | none => m) t
+  -- the big.Float conversions: their kernel lines carry big.Float tokens (adapters above)
+  let t := match t.get? "api.Float" with | some v => t.insert "Decimal.Float" (floatKernelSpec v) | none => t
+  match t.get? "api.FromFloat" with | some v => t.insert "FromFloat" (fromFloatKernelSpec v) | none => t
 
 end Oracle
